@@ -112,6 +112,8 @@ func (e *eng) correspondence() {
 	e.corrFlat(r)
 	e.corrGeom(r)
 	e.corrBoot(r)
+	e.corrTree(r)
+	e.corrDirWrs(r)
 }
 
 // ---- table codecs
